@@ -62,6 +62,10 @@ enum Op {
 	ListenerQuat(Quat, u32),
 	EmitterPos(Vec3, u32),
 	Strength(f32, u32),
+	/// `SpatialTrackHandle::set_volume(Value::FromListenerDistance(mapping), tween)`: a link made at run time
+	TrackVolume(Mapping<Decibels>, u32),
+	/// the same on the (non-spatial) child track the sound plays on (`scn.nested`)
+	ChildVolume(Mapping<Decibels>, u32),
 }
 #[derive(Clone, Debug)]
 struct Scn {
@@ -202,6 +206,12 @@ fn run_scn(scn: &Scn, callbacks: usize) -> RunObs {
 					}
 					Op::EmitterPos(p, f) => rig.track.set_position(p, tween_frames(f)),
 					Op::Strength(x, f) => rig.track.set_spatialization_strength(x, tween_frames(f)),
+					Op::TrackVolume(mp, f) => rig.track.set_volume(Value::FromListenerDistance(mp), tween_frames(f)),
+					Op::ChildVolume(mp, f) => {
+						if let Some(c) = rig._child.as_mut() {
+							c.set_volume(Value::FromListenerDistance(mp), tween_frames(f))
+						}
+					}
 				}
 			}
 		}
@@ -1067,6 +1077,335 @@ fn pickup_order_listener(s: &mut Session) {
 	}
 }
 
+// ---------------------------------------------------------------- histories: links made at run time, common motion
+fn chunks_of(frames: u32, buf: usize) -> usize {
+	((frames as usize + buf - 1) / buf).max(1)
+}
+fn gen_link_dist(r: &mut Rng) -> f32 {
+	match r.below(3) {
+		0 => *r.pick(&[0.0f32, 0.5, 1.0, 2.0, 5.0, 7.5, 10.0, 20.0, 50.0, 100.0]),
+		1 => (r.unit_f64() * 12.0) as f32,
+		_ => r.range(0, 96) as f32 / 8.0,
+	}
+}
+/// "A parameter mapped from listener distance follows that distance" for a link made AT RUN TIME through a handle
+/// (`set_volume(Value::FromListenerDistance(..), tween)` on the spatial track or on a child track of it) and a
+/// history that goes on AFTER the link's tween has ended: listener and emitter move (zero-length and longer tweens),
+/// and in every chunk after the end of the tween the volume must be `mapping.map(distance of THAT chunk)`:
+///  * scenes without attenuation and panning: every output frame is the input times the amplitude of the decibel
+///    value interpolated between the previous and the current chunk's mapped distance (exact);
+///  * all scenes: once everything is at rest the output is bit-identical to that of the static scene built with the
+///    same mapping in the builder at the final positions (a value does not depend on how it was linked or on the
+///    history), and the frames of chunks at rest are sent to the model with the mapping as the volume stage.
+fn run_linked(s: &mut Session, r: &mut Rng, emit_twin: bool) {
+	let mut scn = Scn::base();
+	scn.lpos = gen_moderate_pos(r);
+	scn.lq = gen_quat(r);
+	scn.epos = scn.lpos + gen_unit_vec(r) * gen_link_dist(r);
+	let pure = r.chance(2, 3);
+	if pure {
+		scn.easing = None;
+		scn.strength = *r.pick(&[0.0f32, 0.0, -0.0, -0.5]);
+	} else {
+		let (a, b) = gen_distances(r);
+		scn.dmin = a;
+		scn.dmax = b;
+		scn.easing = gen_easing_opt(r);
+		scn.strength = gen_strength(r);
+	}
+	scn.input = gen_input(r);
+	if scn.input == (0.0, 0.0) {
+		scn.input = (0.5, -0.25);
+	}
+	scn.buf = *r.pick(&[1usize, 1, 2, 4]);
+	let on_child = r.chance(1, 3);
+	scn.nested = on_child;
+	let mp = gen_mapping(r);
+	let link_at = r.below(3) as usize;
+	let f = *r.pick(&[0u32, 0, 1, 3, 5, 8, 10]);
+	// the chunk in which the link's tween ends: from there on the parameter is idle and linked
+	let kf = link_at + chunks_of(f, scn.buf) - 1;
+	scn.ops.push((link_at, if on_child { Op::ChildVolume(mp, f) } else { Op::TrackVolume(mp, f) }));
+	let (mut lfin, mut qfin, mut efin) = (scn.lpos, scn.lq, scn.epos);
+	let mut at = kf + 1 + r.below(3) as usize;
+	for _ in 0..r.range(1, 3) {
+		let g = *r.pick(&[0u32, 0, 1, 3, 8]);
+		match r.below(4) {
+			0 | 1 => {
+				lfin = efin + gen_unit_vec(r) * gen_link_dist(r);
+				scn.ops.push((at, Op::ListenerPos(lfin, g)));
+			}
+			2 => {
+				efin = lfin + gen_unit_vec(r) * gen_link_dist(r);
+				scn.ops.push((at, Op::EmitterPos(efin, g)));
+			}
+			_ => {
+				lfin = efin + gen_unit_vec(r) * gen_link_dist(r);
+				qfin = gen_quat(r);
+				scn.ops.push((at, Op::ListenerPos(lfin, g)));
+				scn.ops.push((at, Op::ListenerQuat(qfin, g)));
+			}
+		}
+		at += chunks_of(g, scn.buf) + r.below(3) as usize;
+	}
+	let total = at + 3;
+	let obs = run_scn(&scn, total);
+	let mut mirror = EmMirror::new(&scn);
+	s.eval_only("linked_at_run_time");
+	// the scenario as the model sees a chunk at rest: the mapping is the volume stage of the (child) track
+	let mut mscn = scn.clone();
+	if on_child {
+		mscn.pre = Some(mp);
+	} else {
+		mscn.post = Some(mp);
+	}
+	let mut prev_db: Option<Decibels> = None;
+	let mut emitted = 0;
+	let mut last: Option<Frame> = None;
+	for (k, cb) in obs.cbs.iter().enumerate() {
+		let em = mirror.step(&scn, k, scn.buf);
+		let Some(li) = obs.probes.get(k).and_then(|p| p.li) else {
+			s.fail(scn.describe(), format!("callback {k}: the sound on the spatial track was not processed or saw no listener"), None);
+			return;
+		};
+		let d = v3(li.position).distance(em.tp);
+		if obs.probes[k].dist.map(obs32) != Some(obs32(d)) {
+			s.fail(scn.describe(), format!("callback {k}: listener_distance() = {:?}, distance of listener {:?} and emitter {:?} = {d:?}", obs.probes[k].dist, li.position, em.tp), None);
+		}
+		let cur = mp.map(d as f64);
+		let Outcome::Ok(frames) = cb else {
+			s.fail(scn.describe(), format!("callback {k}: audio thread panicked: {}", last_panic()), None);
+			return;
+		};
+		if let (true, Some(prev)) = (k > kf, prev_db) {
+			let n = frames.len();
+			let at_rest = prev.0.to_bits() == cur.0.to_bits();
+			for (i, fr) in frames.iter().enumerate() {
+				if pure {
+					let t1 = (i + 1) as f64 / n as f64;
+					let amp = Decibels::interpolate(prev, cur, t1).as_amplitude();
+					let want = (0.0 + (0.0 + scn.input.0) * (amp * 1.0), 0.0 + (0.0 + scn.input.1) * (amp * 1.0));
+					if obs32(fr.left) != obs32(want.0) || obs32(fr.right) != obs32(want.1) {
+						s.fail(
+							scn.describe(),
+							format!(
+								"callback {k} frame {i}: the volume was linked to the listener distance before callback {link_at} (tween of {f} frames, over in callback {kf}); the distance is now {d:?} (mapped: {:?} dB, previous chunk {:?} dB) so the output must be input * {amp:?} = {want:?}, but it is {fr:?}: the parameter does not follow the distance",
+								cur.0, prev.0
+							),
+							None,
+						);
+						return;
+					}
+					s.count("monitor_linked_volume_follows_distance");
+				}
+				if at_rest && (emitted < n || (k + 1 == obs.cbs.len() && i + 1 == n)) {
+					emit_case(s, "linked_at_run_time", &mscn, Some(&li), &em, i, n, false, &Outcome::Ok((fr.left, fr.right)));
+					emitted += 1;
+				}
+			}
+		}
+		for fr in frames {
+			if !(fr.left.is_finite() && fr.right.is_finite()) {
+				s.fail(scn.describe(), format!("callback {k}: output {fr:?} is not finite"), None);
+			}
+		}
+		prev_db = Some(cur);
+		last = frames.last().copied();
+	}
+	// the static twin: same mapping given to the builder, everything at its final place from the start
+	let mut twin = mscn.clone();
+	twin.ops.clear();
+	twin.lpos = lfin;
+	twin.lq = qfin;
+	twin.epos = efin;
+	if let (Some(a), Some(bf)) = (last, run_check(s, "linked_static_twin", &twin, 2, emit_twin)) {
+		let b = *bf.last().unwrap();
+		if obs32(a.left) != obs32(b.left) || obs32(a.right) != obs32(b.right) {
+			s.fail(
+				scn.describe(),
+				format!(
+					"at rest after the history (listener {:?} {:?}, emitter {:?}) the output is {a:?}, but the same scene with the mapping given to the builder renders {b:?}: the value of a parameter mapped from the listener distance depends on the history, not on the distance",
+					lfin.to_array(),
+					qfin.to_array(),
+					efin.to_array()
+				),
+				None,
+			);
+		}
+		s.count("monitor_linked_equals_static_twin");
+	}
+}
+
+/// what the sound on a riding emitter sees in one chunk
+#[derive(Clone, Copy)]
+struct RideRec {
+	li: Option<ListenerInfo>,
+	m: Option<f64>,
+}
+struct RideDc {
+	frame: Frame,
+	id: kira::modulator::ModulatorId,
+	log: Arc<Mutex<Vec<RideRec>>>,
+}
+impl Sound for RideDc {
+	fn process(&mut self, out: &mut [Frame], _dt: f64, info: &Info) {
+		self.log.lock().unwrap().push(RideRec { li: info.listener_info(), m: info.modulator_value(self.id) });
+		out.fill(self.frame);
+	}
+	fn finished(&self) -> bool {
+		false
+	}
+}
+struct RideDcData(RideDc);
+impl SoundData for RideDcData {
+	type Error = ();
+	type Handle = ();
+	fn into_sound(self) -> Result<(Box<dyn Sound>, ()), ()> {
+		Ok((Box::new(self.0), ()))
+	}
+}
+fn dyadic_pos(r: &mut Rng, span: i64) -> Vec3 {
+	Vec3::new(r.range(-span, span) as f32 / 8.0, r.range(-span, span) as f32 / 8.0, r.range(-span, span) as f32 / 8.0)
+}
+/// Rigid motion applied to listener and emitter TOGETHER, as a history: both ride one vehicle.  Kind 0: both
+/// positions are linked to the same tweener modulator (same mapping, the emitter's shifted by a constant offset);
+/// kind 1: both are moved through their handles by the same tween started on the same clock tick.  The true distance
+/// and relative direction never change, so ("the attenuation depends only on the emitter-listener distance", "each
+/// ear gain ... is unchanged by a rigid motion applied to listener and emitter together") every frame rendered while
+/// the vehicle moves must have the level of the parked scene.  For kind 0 the frames of moving chunks also go to the
+/// model, with listener and emitter data computed from the modulator values the track saw in those chunks.
+fn run_ride(s: &mut Session, r: &mut Rng) {
+	use kira::clock::ClockSpeed;
+	use kira::modulator::tweener::TweenerBuilder;
+	let kind = if r.chance(1, 4) { 1 } else { 0 };
+	let b = *r.pick(&[1usize, 2, 4, 8]);
+	let lq = gen_quat(r);
+	let range = *r.pick(&[4.0f32, 8.0, 16.0]);
+	let (dmin, dmax) = (1.0f32, 1.0 + range);
+	let l0 = dyadic_pos(r, 64);
+	let dir = gen_unit_vec(r);
+	let rel = dir * (dmin + range * (0.2 + 0.4 * r.unit_f64() as f32));
+	// per internal chunk the vehicle advances by 5 % .. 25 % of the attenuation range, for `moving` chunks
+	let moving = 8usize;
+	let step = range * (0.05 + 0.2 * r.unit_f64() as f32);
+	let tdir = match r.below(4) {
+		0 => dir,
+		1 => -dir,
+		_ => gen_unit_vec(r),
+	};
+	let travel = tdir * (step * moving as f32);
+	let easing = *r.pick(&[Easing::Linear, Easing::Linear, Easing::InPowi(2), Easing::OutPowi(2)]);
+	let strength = *r.pick(&[0.0f32, 0.5, 0.75, 1.0]);
+	let input = (0.5f32, *r.pick(&[0.5f32, 0.25, -0.25]));
+	let tween_easing = *r.pick(&[Easing::Linear, Easing::Linear, Easing::OutPowi(2)]);
+	let desc = format!(
+		"listener and emitter riding together ({}): internal buffer {b} at {SR} Hz; listener at {:?} orientation {:?}; emitter at listener + {:?}; distances ({dmin:?}, {dmax:?}); attenuation {easing:?}; strength {strength:?}; input {input:?}; after 3 parked callbacks both are translated by {:?} over {} frames ({tween_easing:?})",
+		if kind == 0 { "both positions Value::FromModulator of one tweener, mapping 0..1 -> start..start+travel; tweener.set(1.0, tween)" } else { "listener.set_position and track.set_position with the same tween, StartTime::ClockTime of the same tick" },
+		l0.to_array(),
+		lq.to_array(),
+		rel.to_array(),
+		travel.to_array(),
+		moving * b
+	);
+	let mut m = simple_manager(SR, b);
+	let mut vehicle = m.add_modulator(TweenerBuilder { initial_value: 0.0 }).unwrap();
+	let riding = |off: Vec3| Mapping { input_range: (0.0, 1.0), output_range: (off, off + travel), easing: Easing::Linear };
+	let as_value = |mp: Mapping<Vec3>| -> Value<mint::Vector3<f32>> {
+		Value::FromModulator { id: vehicle.id(), mapping: Mapping { input_range: mp.input_range, output_range: (mp.output_range.0.into(), mp.output_range.1.into()), easing: mp.easing } }
+	};
+	let (map_l, map_e) = (riding(l0), riding(l0 + rel));
+	let mut listener = if kind == 0 { m.add_listener(as_value(map_l), lq).unwrap() } else { m.add_listener(l0, lq).unwrap() };
+	let builder = SpatialTrackBuilder::new().distances((dmin, dmax)).attenuation_function(Some(easing)).spatialization_strength(strength);
+	let mut track = if kind == 0 { m.add_spatial_sub_track(listener.id(), as_value(map_e), builder).unwrap() } else { m.add_spatial_sub_track(listener.id(), l0 + rel, builder).unwrap() };
+	let log: Arc<Mutex<Vec<RideRec>>> = Arc::default();
+	track.play(RideDcData(RideDc { frame: Frame::new(input.0, input.1), id: vehicle.id(), log: log.clone() })).unwrap();
+	let mut clock = m.add_clock(ClockSpeed::TicksPerSecond(SR as f64 / (2 * b) as f64)).unwrap();
+	clock.start();
+	s.eval_only(if kind == 0 { "ride_same_modulator" } else { "ride_same_clock_tick" });
+	let cb = |m: &mut Mgr| catch(|| m.backend_mut().callback_stereo(b));
+	let mut parked = None;
+	for _ in 0..3 {
+		match cb(&mut m) {
+			Outcome::Ok(f) => parked = f.last().copied(),
+			_ => {
+				s.fail(desc.clone(), format!("audio thread panicked while parked: {}", last_panic()), None);
+				return;
+			}
+		}
+	}
+	let parked = parked.unwrap();
+	if !(parked.left.abs() > 1.0e-5 || parked.right.abs() > 1.0e-5) {
+		s.count("ride_parked_level_too_low");
+		return;
+	}
+	let tween = |start_time| Tween { start_time, duration: Duration::from_secs_f64((moving * b) as f64 / SR as f64), easing: tween_easing };
+	if kind == 0 {
+		vehicle.set(1.0, tween(StartTime::Immediate));
+	} else {
+		let t = StartTime::ClockTime(clock.time() + 2u64);
+		// the caller does the two calls back to back: both commands are picked up by the same callback
+		listener.set_position(l0 + travel, tween(t));
+		track.set_position(l0 + rel + travel, tween(t));
+	}
+	let tol = |x: f32| 2.0e-3 * x.abs() + 1.0e-7;
+	let total = moving + if kind == 0 { 3 } else { 8 };
+	let mut emitted_chunks = 0;
+	for k in 0..total {
+		let frames = match cb(&mut m) {
+			Outcome::Ok(f) => f,
+			_ => {
+				s.fail(desc.clone(), format!("callback {} (moving): audio thread panicked: {}", 3 + k, last_panic()), None);
+				return;
+			}
+		};
+		for (i, fr) in frames.iter().enumerate() {
+			if (fr.left - parked.left).abs() > tol(parked.left) || (fr.right - parked.right).abs() > tol(parked.right) || !fr.left.is_finite() || !fr.right.is_finite() {
+				let recs = log.lock().unwrap();
+				let seen = recs.last().and_then(|x| x.li).map(|li| (li.previous_position, li.position));
+				s.fail(
+					desc.clone(),
+					format!(
+						"callback {} frame {i}: level {fr:?} while riding, but {parked:?} while parked: listener and emitter are moved by the same rigid motion (distance {:?} and relative direction never change), yet the level changed (listener position seen by the track in this chunk, previous/current: {seen:?}; modulator value {:?})",
+						3 + k,
+						rel.length(),
+						recs.last().and_then(|x| x.m)
+					),
+					None,
+				);
+				return;
+			}
+		}
+		s.count("monitor_ride_level_unchanged");
+		// model cases: listener and emitter data of this chunk from the modulator values the track saw
+		if kind == 0 {
+			let recs = log.lock().unwrap();
+			let c = recs.len() - 1;
+			if let (Some(m1), Some(m0), Some(li)) = (recs[c].m, recs[c - 1].m, recs[c].li) {
+				let moved = m1 != m0;
+				if moved && emitted_chunks < if b >= 4 { 1 } else { 2 } {
+					emitted_chunks += 1;
+					let mint3 = |v: Vec3| mint::Vector3 { x: v.x, y: v.y, z: v.z };
+					let predicted = ListenerInfo { previous_position: mint3(map_l.map(m0)), position: mint3(map_l.map(m1)), ..li };
+					let em = Em { pp: map_e.map(m0), p: map_e.map(m1), ps: strength, s: strength, tp: map_e.map(m0) };
+					let mut scn = Scn::base();
+					scn.lpos = l0;
+					scn.lq = lq;
+					scn.epos = l0 + rel;
+					scn.dmin = dmin;
+					scn.dmax = dmax;
+					scn.easing = Some(easing);
+					scn.strength = strength;
+					scn.input = input;
+					scn.buf = b;
+					for (i, fr) in frames.iter().enumerate() {
+						emit_case(s, "ride_same_modulator_frame", &scn, Some(&predicted), &em, i, frames.len(), false, &Outcome::Ok((fr.left, fr.right)));
+					}
+				}
+			}
+		}
+	}
+}
+
 pub fn run(args: &Args) {
 	let mut rng = Rng::new(args.seed ^ 0xC15);
 	let n: u64 = (if args.thorough { 6000 } else { 420 }) * args.budget_mul;
@@ -1194,5 +1533,16 @@ pub fn run(args: &Args) {
 		}
 	}
 	pickup_order_listener(&mut s);
+	// ---- histories (own generator streams, so that the cases above are the same as before)
+	{
+		let mut r1 = Rng::new(args.seed ^ 0xC15_0001).fork();
+		for i in 0..n / 4 {
+			run_linked(&mut s, &mut r1, i % 4 == 0);
+		}
+		let mut r2 = Rng::new(args.seed ^ 0xC15_0002).fork();
+		for _ in 0..n / 8 {
+			run_ride(&mut s, &mut r2);
+		}
+	}
 	s.finish();
 }
